@@ -724,6 +724,12 @@ func (e *Engine) evSlice(x *ast.SliceExpr, st *State) Value {
 // ---- composite literals ----
 
 func (e *Engine) evComposite(x *ast.CompositeLit, st *State) Value {
+	v := e.evComposite0(x, st)
+	e.litAsserts(x, v, st)
+	return v
+}
+
+func (e *Engine) evComposite0(x *ast.CompositeLit, st *State) Value {
 	t := e.typeOf(x)
 	switch u := types.Unalias(t).Underlying().(type) {
 	case *types.Struct:
@@ -982,8 +988,9 @@ func (e *Engine) evBinary(x *ast.BinaryExpr, st *State) Value {
 		if e.stateChanged(st, s2) {
 			s1 := st.clone()
 			s1.pc = and(st.pc, not(cond))
-			m := e.merge([]*State{s2, s1})
-			*st = *m
+			if m := e.merge([]*State{s2, s1}); m != nil {
+				*st = *m
+			}
 		}
 		if x.Op == token.LAND {
 			return Value{and(a.T, b.T), t}
